@@ -99,6 +99,20 @@ def _try_read(job):
         return ("exc", stage, type(e).__name__, got)
 
 
+def _try_append_wrong(job):
+    """an append session opened with a wrong / absent password must not deliver or destroy anything"""
+    data, password = job
+    import py7zr
+    buf = io.BytesIO(data)
+    kw = {} if password is None else {"password": password}
+    try:
+        with py7zr.SevenZipFile(buf, "a", **kw) as z:
+            z.writestr(b"appended with the wrong password", "intruder.txt")
+        return ("ok", buf.getvalue())
+    except Exception as e:  # noqa
+        return ("exc", type(e).__name__, buf.getvalue())
+
+
 def model_mode(ctor, ops):
     enc, encr = True, ctor
     for op in ops:
@@ -224,6 +238,26 @@ def run(ctx):
                 continue
             reads.append((a1, w))
             rmeta.append((conf, "absent" if w is None else "wrong", members, encrypted_header))
+    # an APPEND session opened without / with a wrong password on an archive whose header is encrypted: it cannot
+    # even list the archive, so it must raise and leave every byte as it was — never start a new archive in its place
+    ajobs, ameta = [], []
+    for (data, pw), (conf, kind, members, ench) in zip(reads, rmeta):
+        if ench and kind in ("absent", "wrong") and len(ajobs) < (60 if ctx.thorough else 16):
+            ajobs.append((data, pw))
+            ameta.append((conf, kind, members, data))
+    ares = sandbox.pmap(_try_append_wrong, ajobs, timeout=120)
+    for (conf, kind, members, data), (st, val) in zip(ameta, ares):
+        ctx.case(key=("append-wrong", zlib.crc32(data), kind), nontrivial=True)
+        if st != "ok":
+            ctx.fail("C11:append_" + st, "an append session with %s password did not complete" % kind, conf)
+            continue
+        ctx.count("append-with-%s-password" % kind, val[0] if val[0] == "ok" else val[1])
+        after = val[1] if val[0] == "ok" else val[2]
+        if after != data:
+            ctx.fail("C11:append_wrong_password_destroys", "an append session opened with %s password changed the archive (%s): the earlier members are no longer there"
+                     % (kind, "no error" if val[0] == "ok" else val[1]), dict(conf, size_before=len(data), size_after=len(after)))
+        elif val[0] == "ok":
+            ctx.fail("C11:append_wrong_password_succeeds", "an append session opened with %s password reported success" % kind, conf)
     res = sandbox.pmap(_try_read, reads, timeout=120)
     for (conf, kind, members, ench), (st, val) in zip(rmeta, res):
         want = {n: d for n, d in members}
